@@ -15,3 +15,23 @@ func verifMergeRoots(cfg Config, roots []string, when time.Time) ([]string, time
 	}
 	return roots, when
 }
+
+// VerifLegacyEncrypt seals message in the format that decrypt still accepts
+// for compatibility (nonce, then the hand-rolled box: MAC and ciphertext), so
+// that a verification harness can produce such data (build tag verif only).
+func VerifLegacyEncrypt(passphrase, message []byte) ([]byte, error) {
+	var key [32]byte
+	copy(key[:], deriveKey(passphrase, nil))
+	combined := make([]byte, 0, len(message)+len(key))
+	combined = append(combined, message...)
+	combined = append(combined, key[:]...)
+	n, err := nonce(combined, encryptNonceLen)
+	if err != nil {
+		return nil, err
+	}
+	c, err := crypto_secretbox_easy(message, n, &key)
+	if err != nil {
+		return nil, err
+	}
+	return append(append([]byte{}, n[:encryptNonceLen]...), c...), nil
+}
